@@ -811,34 +811,67 @@ Theorem C01_sempoll_exec_sound : forall P polltag stags (l : list SemPoll.pchoic
 Proof. exact SemPoll.exec_p_sound. Qed.
 Print Assumptions C01_sempoll_exec_sound.
 
-(* NBX, EVERY SCHEDULE - PARTIAL.  FULL STATEMENT WANTED: for every P >= 1, every family of ascending receiver lists, sorted or not, every
-   fuel: in EVERY run of SemPoll.v from nbx_sys (a) every final state has on every rank r the result `result o []`, o a permutation of the
-   transposed list (equal to it if sorted), every channel empty (no unreceived message, no pending synchronous send) and every barrier
-   posted; (b) no rank is ever blocked; (c) NO ENDLESS POLLING: from every reachable state a final state is reachable (unless the model's
-   loop bound is hit), and every fair run terminates.
-   PROVED, for every schedule and unbounded: (a), (b) and the first half of (c).  (a) rests on the invariant NbxSched.NInv, which holds
-   in every reachable state (NbxSched.nbx_safety): a rank posts the barrier only after all its synchronous sends were matched, and
-   returns only after all ranks posted the barrier, hence after it has itself received every message addressed to it - the argument
-   behind the round abstraction of C01_nbx_round_semantics, now derived from a global semantics.  (b): every rank of the communicator
-   has returned, or stands at the model's fuel mark, or can step.  (c), first half: from EVERY reachable state some continuation of the
-   run reaches a final state or a state in which a rank stands at the model's fuel mark (a potential on the ghost states decreases
-   along a suitably chosen enabled step: NbxSched.nbx_move).  MISSING: that fuel >= (steps so far + potential) excludes the fuel mark
-   on that continuation, and termination of every FAIR run - see docs/C01_sched2.md section 5. *)
-Theorem C01_nbx_every_schedule_partial : forall P (R : Z -> list Z) (sorted : bool) (fuel : nat),
+(* the program of the system is the one notify_prog gives for typ = 6 (nbx) *)
+Theorem C01_nbx_is_notify_prog : forall fuel P me ntop nint nbot sorted (R : list Z) sz eager extra supers,
+  notify_prog fuel 6 P me ntop nint nbot sorted R None sz eager extra supers = nbx_core fuel R None sorted (fun s g => Ret (result s g)).
+Proof. exact NbxSched.nbx_is_notify_prog. Qed.
+Print Assumptions C01_nbx_is_notify_prog.
+
+(* the two bounds, as functions of P and the pattern (N = number of notifications: nbx_bound = 6 N + 8 P, nbx_rounds = 2 N + 3 P) *)
+Theorem C01_nbx_bounds : forall P (R : Z -> list Z),
+  NbxSched.nbx_bound P R = list_sum (map (fun r => 3 * length (R r) + 3 * length (transpose P R r) + 8)%nat (ranks P)) /\
+  NbxSched.nbx_rounds P R = list_sum (map (fun r => length (R r) + length (transpose P R r) + 3)%nat (ranks P)).
+Proof. intros P R. split; reflexivity. Qed.
+Print Assumptions C01_nbx_bounds.
+
+(* NBX, EVERY SCHEDULE (no fairness assumed), every P, every family of ascending receiver lists, sorted or not.  `fuel` is the model's
+   bound on the loop iterations (notify_prog's first argument; the C loop has none): the statement covers every run of n steps with
+   n + nbx_bound P R < fuel, i.e. - fuel being arbitrary - every finite run of the unbounded program.  In the state s reached:
+   (a) if s is final, every rank r has returned result o [], o a permutation of the transposed list (equal to it if sorted), every
+       channel is empty (no unreceived message, no pending synchronous send) and every rank has posted the barrier;
+   (b) no rank is blocked: every rank of the communicator has returned or can step (the fuel mark is NOT reached);
+   (c) a FINAL state is reachable from s by at most nbx_bound P R further steps.
+   (a) rests on the invariant NbxSched.NInv (NbxSched.nbx_safety): a rank posts the barrier only after all its synchronous sends were
+   matched and returns only after all ranks posted the barrier, hence after it has itself received every message addressed to it - the
+   argument behind the round abstraction of C01_nbx_round_semantics, now derived from a global semantics. *)
+Theorem C01_nbx_every_schedule : forall P (R : Z -> list Z) (sorted : bool) (fuel : nat),
   (forall f, 0 <= f < P -> ssorted (fun x => x) (R f) /\ forall t, In t (R f) -> 0 <= t < P) ->
   forall n s, SemPoll.run_p P NbxSched.nbx_poll NbxSched.nbx_stags n (NbxSched.nbx_sys P R false (fun _ _ => []) sorted fuel) s ->
+  (n + NbxSched.nbx_bound P R < fuel)%nat ->
     (SemPoll.pfinal s ->
        (forall r, 0 <= r < P -> exists o, Permutation o (transpose P R r) /\ (sorted = true -> o = transpose P R r) /\
                                          SemPoll.ppr s r = Ret (result o [])) /\
        (forall a b t, SemPoll.pch s a b t = []) /\ (forall r, 0 <= r < P -> SemPoll.pbar s r = true)) /\
-    (forall r, 0 <= r < P -> (exists o, SemPoll.ppr s r = Ret o) \/ NbxSched.at_fuel_mark s r \/
+    (forall r, 0 <= r < P -> (exists o, SemPoll.ppr s r = Ret o) \/
                              exists s', SemPoll.step_p P NbxSched.nbx_poll NbxSched.nbx_stags s r s') /\
-    (exists m s', SemPoll.run_p P NbxSched.nbx_poll NbxSched.nbx_stags m s s' /\
-                  (SemPoll.pfinal s' \/ exists r, 0 <= r < P /\ NbxSched.at_fuel_mark s' r)).
+    (exists m s', SemPoll.run_p P NbxSched.nbx_poll NbxSched.nbx_stags m s s' /\ (m <= NbxSched.nbx_bound P R)%nat /\ SemPoll.pfinal s').
+Proof. intros P R sorted fuel HR. exact (NbxSched.nbx_every_schedule P R false (fun _ _ => []) sorted fuel HR). Qed.
+Print Assumptions C01_nbx_every_schedule.
+
+(* NO ENDLESS POLLING UNDER WEAK FAIRNESS.  runl ls s s': a run with the list ls of the ranks that move.  A FAIR SEGMENT is a piece of a
+   run at whose end every rank of the communicator has returned or has moved at least twice in it; fair_segs P k s s': k fair segments in
+   sequence (spelled out by C01_nbx_fair_segs_def).  THEOREM: a run from the initial state that consists of k >= nbx_rounds P R fair
+   segments ends in a FINAL state - whatever the interleaving inside the segments, for every fuel.  Hence every weakly fair run of the
+   unbounded loop terminates: as long as a rank has not returned it can step (C01_nbx_every_schedule (b)), so an infinite run in which
+   every such rank moves again and again contains arbitrarily many fair segments.  Proof: NbxSched.Rho counts the productive steps still
+   to come (sends, successful polls, Testall = 1, Ibarrier, Test = 1); an unproductive step (empty poll, Testall = 0, Test = 0) leaves
+   it unchanged, every other step decreases it by 1 (so a run has at most nbx_rounds productive steps: NbxSched.nbx_productive_bound);
+   in every non-final reachable state some rank is CRITICAL (NbxSched.crit): its next step, or the one after it, is productive as long
+   as the others make only unproductive steps - so every fair segment contains a productive step (NbxSched.segment_productive). *)
+Theorem C01_nbx_fair_segs_def : forall P k s s2,
+  NbxSched.fair_segs P (S k) s s2 <->
+  exists ls s1, NbxSched.runl P ls s s1 /\
+                (forall r, 0 <= r < P -> (exists o, SemPoll.ppr s1 r = Ret o) \/ (2 <= NbxSched.cnt r ls)%nat) /\
+                NbxSched.fair_segs P k s1 s2.
 Proof.
-  intros P R sorted fuel HR n s Hr. split; [|split].
-  - exact (NbxSched.nbx_final P R false (fun _ _ => []) sorted fuel HR n s Hr).
-  - exact (NbxSched.nbx_never_blocked P R false (fun _ _ => []) sorted fuel HR n s Hr).
-  - exact (NbxSched.nbx_no_endless_polling P R false (fun _ _ => []) sorted fuel HR n s Hr).
+  intros P k s s2. split.
+  - intros H. inversion H; subst. eauto.
+  - intros [ls [s1 [H1 [H2 H3]]]]. econstructor; eassumption.
 Qed.
-Print Assumptions C01_nbx_every_schedule_partial.
+Print Assumptions C01_nbx_fair_segs_def.
+Theorem C01_nbx_fair_termination : forall P (R : Z -> list Z) (sorted : bool) (fuel : nat),
+  (forall f, 0 <= f < P -> ssorted (fun x => x) (R f) /\ forall t, In t (R f) -> 0 <= t < P) ->
+  forall k s, NbxSched.fair_segs P k (NbxSched.nbx_sys P R false (fun _ _ => []) sorted fuel) s ->
+  (NbxSched.nbx_rounds P R <= k)%nat -> SemPoll.pfinal s.
+Proof. intros P R sorted fuel HR. exact (NbxSched.nbx_fair_termination P R false (fun _ _ => []) sorted fuel HR). Qed.
+Print Assumptions C01_nbx_fair_termination.
